@@ -442,7 +442,28 @@ func (e *escaper) escapeBranch(c context, n *parse.BranchNode, nodeName string) 
 		// The "true" branch of a "range" node can execute multiple times.
 		// We check that executing n.List once results in the same context
 		// as executing n.List twice.
-		c1, _ := e.escapeListConditionally(c0, n.List, nil)
+		// The edits of the second pass are discarded: every action keeps the sanitizers chosen for
+		// the first iteration. That is only right if later iterations would choose the same ones.
+		var differs parse.Node
+		c1, _ := e.escapeListConditionally(c0, n.List, func(e1 *escaper, _ context) bool {
+			for node, cmds := range e1.actionNodeEdits {
+				if first, ok := e.actionNodeEdits[node]; ok && strings.Join(first, "|") != strings.Join(cmds, "|") {
+					differs = node
+				}
+			}
+			for node, callee := range e1.templateNodeEdits {
+				if first, ok := e.templateNodeEdits[node]; ok && first != callee {
+					differs = node
+				}
+			}
+			return false
+		})
+		if differs != nil && c1.state != stateError {
+			return context{
+				state: stateError,
+				err:   errorf(ErrRangeLoopReentry, n, n.Line, "on range loop re-entry: %s must be escaped differently than in the first iteration", differs),
+			}
+		}
 		c0 = join(c0, c1, n, nodeName)
 		if c0.state == stateError {
 			// Make clear that this is a problem on loop re-entry
